@@ -50,7 +50,9 @@ def iter_abs(ex: Exec, node: ast.expr) -> IterAbs:
             fail = None
             if strict:
                 fail = z3.Or([p.n != parts[0].n for p in parts[1:]]) if len(parts) > 1 else None
-            return IterAbs(z3.simplify(n), lambda i: [p.get(i) for p in parts], strict_fail=fail)
+            zi = IterAbs(z3.simplify(n), lambda i: [p.get(i) for p in parts], strict_fail=fail)
+            zi.part_seqs = [p.seq for p in parts if p.seq is not None]  # for elt links in exec_for
+            return zi
         if isinstance(f, ast.Name) and f.id == "range" and f.id not in ex.locals:
             args = [ex.eval(a) for a in node.args]
             if len(args) == 1:
@@ -534,6 +536,9 @@ def exec_for(ex: Exec, st: ast.For) -> None:
         if getattr(ex, "_elt_def", False) and it.seq is not None:
             # ground instance of elt's definition at the element this iteration visits
             ex.assume(S.elt_link(it.seq, i))
+        if getattr(ex, "_elt_def", False):
+            for ps in getattr(it, "part_seqs", []):
+                ex.assume(S.elt_link(ps, i))  # zip: the elements visited in each zipped sequence
         if getattr(ex, "_elt_def", False) and getattr(it, "keys_of", None) is not None:
             ex.assume(S.elt_link(ex.seq(it.keys_of), i))  # dict iteration: the key visited
         _bind_target(ex, st.target, it.get(i))
